@@ -141,7 +141,33 @@ type Case struct {
 	SGroups []SGroup `json:"sgroups"`
 	SReqs   []SReq   `json:"sreqs"`
 	UseMw   bool     `json:"usemw"`
+	Big     *BigCase `json:"big"` // big: payload sizes for the cryption round trip
 	Natives bool     `json:"natives"` // srv: also switch on the log / trace / prometheus / metrics middlewares in front of the gates
+}
+
+// BigCase: the payloads are described as (seed, length) and expanded here, so that the case text stays small.
+type BigCase struct {
+	Seed    uint64 `json:"seed"`
+	ReqLen  int    `json:"reqlen"`
+	RespLen int    `json:"resplen"`
+	Piece   int    `json:"piece"`   // the handler writes the response in pieces of this size (0: one Write)
+	Flush   bool   `json:"flush"`   // ... calling Flush between the pieces
+	KeyLen  int    `json:"keylen"`  // 16 | 24 | 32
+	Via     string `json:"via"`     // crypt (LimitCryptionHandler) | cs (signed type-1 request behind strict content security)
+	Chunked bool   `json:"chunked"` // unknown length
+	Limit   int64  `json:"limit"`   // limitBytes (<= 0: none)
+}
+
+type BigObs struct {
+	Ran     bool   `json:"ran"`
+	Status  int    `json:"status"`
+	WireLen int    `json:"wirelen"`
+	SeenLen int    `json:"seenlen"`
+	SeenOk  bool   `json:"seenok"`  // the handler read exactly the plaintext the client encrypted
+	RespLen int    `json:"resplen"` // bytes on the wire
+	RespOk  bool   `json:"respok"`  // an independent client (encoding/base64 + crypto/aes + strict PKCS#7) gets back what the handler wrote
+	RespWhy string `json:"respwhy,omitempty"`
+	Panic   string `json:"panic,omitempty"`
 }
 
 type TpCall struct {
@@ -305,6 +331,7 @@ type Out struct {
 	Jwt []JObs  `json:"jwt,omitempty"`
 	Tp  []TpObs `json:"tp,omitempty"`
 	Srv *SrvObs `json:"srv,omitempty"`
+	Big *BigObs `json:"big,omitempty"`
 	CS  *CSObs  `json:"cs,omitempty"`
 	Err string  `json:"err,omitempty"`
 }
@@ -1410,6 +1437,127 @@ func runSrv(c Case) *SrvObs {
 	return so
 }
 
+// ---------------------------------------------------------------------------
+// big: the cryption round trip for payload SIZES across block / base64-group / buffer boundaries, in both
+// directions, judged end to end by an independent client written here with the standard library only.
+
+func expand(seed uint64, n int) []byte {
+	b := make([]byte, n)
+	x := seed*2862933555777941757 + 3037000493
+	for i := range b {
+		x ^= x << 13
+		x ^= x >> 7
+		x ^= x << 17
+		b[i] = byte(x >> 24)
+	}
+	return b
+}
+
+func strictUnpad(pt []byte) ([]byte, bool) {
+	if len(pt) == 0 || len(pt)%16 != 0 {
+		return nil, false
+	}
+	n := int(pt[len(pt)-1])
+	if n < 1 || n > 16 {
+		return nil, false
+	}
+	for i := 0; i < n; i++ {
+		if pt[len(pt)-1-i] != byte(n) {
+			return nil, false
+		}
+	}
+	return pt[:len(pt)-n], true
+}
+
+func runBig(c Case) *BigObs {
+	g := c.Big
+	o := &BigObs{}
+	key := expand(g.Seed+1, g.KeyLen)
+	plain := expand(g.Seed+2, g.ReqLen)
+	resp := expand(g.Seed+3, g.RespLen)
+	ct, ok := ownEcb(key, ownPad(plain), true)
+	if !ok {
+		o.Panic = "harness: bad key length"
+		return o
+	}
+	wire := []byte(base64.StdEncoding.EncodeToString(ct))
+	o.WireLen = len(wire)
+	route := http.HandlerFunc(func(w http.ResponseWriter, r *http.Request) {
+		o.Ran = true
+		b, _ := io.ReadAll(r.Body)
+		o.SeenLen, o.SeenOk = len(b), bytes.Equal(b, plain)
+		w.WriteHeader(http.StatusOK)
+		if g.Piece <= 0 {
+			if len(resp) > 0 {
+				w.Write(resp)
+			}
+			return
+		}
+		for i := 0; i < len(resp); i += g.Piece {
+			j := i + g.Piece
+			if j > len(resp) {
+				j = len(resp)
+			}
+			w.Write(resp[i:j])
+			if g.Flush {
+				if f, ok := w.(http.Flusher); ok {
+					f.Flush()
+				}
+			}
+		}
+	})
+	var body io.Reader = bytes.NewReader(wire)
+	if g.Chunked {
+		body = hideLen{body}
+	}
+	r := httptest.NewRequest(http.MethodPost, "http://localhost/big?x=1", body)
+	var h http.Handler
+	if g.Via == "cs" {
+		now := time.Now().Unix()
+		ts := strconv.FormatInt(now, 10)
+		secretPlain := "key=" + base64.StdEncoding.EncodeToString(key) + "; time=" + ts + "; type=1"
+		secret := base64.StdEncoding.EncodeToString(ownRsaEnc(&rsaKeys["A"].priv.PublicKey, []byte(secretPlain)))
+		sig := hmacB64(key, strings.Join([]string{ts, http.MethodPost, "/big", "x=1", shaHex(wire)}, "\n"))
+		r.Header.Set("X-Content-Security", "key=A; secret="+secret+"; signature="+sig)
+		h = handler.LimitContentSecurityHandler(g.Limit, map[string]codec.RsaDecrypter{"A": rsaKeys["A"].dec}, 30*time.Second, true)(route)
+	} else {
+		h = handler.LimitCryptionHandler(g.Limit, key)(route)
+	}
+	rec, p := serve(h, r)
+	o.Status, o.Panic = rec.Code, p
+	out := rec.Body.Bytes()
+	o.RespLen = len(out)
+	// the client: ONE base64 document, AES-ECB, strict PKCS#7
+	switch {
+	case len(resp) == 0:
+		o.RespOk = len(out) == 0
+		if !o.RespOk {
+			o.RespWhy = "a body for an empty response"
+		}
+	default:
+		dec, err := base64.StdEncoding.Strict().DecodeString(string(out))
+		if err != nil {
+			o.RespWhy = "base64: " + err.Error()
+			break
+		}
+		pt, ok := ownEcb(key, dec, false)
+		if !ok || len(dec)%16 != 0 {
+			o.RespWhy = "ciphertext is not a whole number of blocks"
+			break
+		}
+		back, ok := strictUnpad(pt)
+		if !ok {
+			o.RespWhy = "padding"
+			break
+		}
+		o.RespOk = bytes.Equal(back, resp)
+		if !o.RespOk {
+			o.RespWhy = fmt.Sprintf("decrypts to %d bytes that are not the %d bytes written", len(back), len(resp))
+		}
+	}
+	return o
+}
+
 func runHdr(c Case) []HObs {
 	var res []HObs
 	for _, h := range c.Hdrs {
@@ -1666,6 +1814,8 @@ func main() {
 			out.Tp = runTp(c)
 		case "srv":
 			out.Srv = runSrv(c)
+		case "big":
+			out.Big = runBig(c)
 		case "hdr":
 			out.Hdr = runHdr(c)
 		default:
